@@ -274,7 +274,7 @@ class InitializeInternal(Contract):
     def spec(self, S):
         D = S.cfg['DIM']
         bp = S.v('breakpoints')
-        S.requires((bp.size() >= 0) & (bp.size() <= (1 << 24) + 1) & (S.v("coefficients").R >= 0) & (S.num_coefficients >= -(1 << 20)) & (S.num_coefficients <= 1 << 20), 'sizes_sane')
+        S.requires((bp.size() >= 0) & (bp.size() <= (1 << 24) + 1) & (S.v("coefficients").R >= 0) & (S.num_coefficients >= -64) & (S.num_coefficients <= 64), 'sizes_sane')
         S.assigns(*[S.v(x) for x in PP_STATE])
         acc = accept_cond(S)
         # C16: rejected <=> uninitialised object with no segments
@@ -408,7 +408,7 @@ def reinit_post(S):
 
 def sizes_sane(S):
     bp = S.v('breakpoints')
-    return (bp.size() >= 0) & (bp.size() <= (1 << 24) + 1) & (S.v("coefficients").R >= 0) & (S.num_coefficients >= -(1 << 20)) & (S.num_coefficients <= 1 << 20)
+    return (bp.size() >= 0) & (bp.size() <= (1 << 24) + 1) & (S.v("coefficients").R >= 0) & (S.num_coefficients >= -64) & (S.num_coefficients <= 64)
 
 
 @register
